@@ -87,8 +87,10 @@ def handle(job):
                     for x in proj["retries"]]
         if any(dsrun.err_class(e, o["thr"]) not in ("below", "unknown") for e in proj["errs"]):
           deviated = True     # a kernel rejected a root: the closed form no longer applies
+          mism.append({"clause": "root_rejected_on_well_conditioned_statistics", "step": t, "param": None,
+                       "detail": [e for e in proj["errs"]]})
       if deviated:
-        continue
+        break
       for i in range(n):
         s = t + 1
         gacc = [dy(x) for x in st["gacc"]]
